@@ -228,7 +228,16 @@ impl rcgen::RemoteKeyPair for RemoteSigner {
 		let n = self.plan.calls.fetch_add(1, Ordering::SeqCst);
 		if n < 64 && self.plan.mask & (1 << n) != 0 {
 			self.plan.failed.fetch_add(1, Ordering::SeqCst);
-			return Err(rcgen::Error::RemoteKeyError);
+			// a signer may report its failure through any error value
+			return Err(match (self.plan.mask.count_ones() as u64 + n) % 7 {
+				0 => rcgen::Error::RemoteKeyError,
+				1 => rcgen::Error::RingUnspecified,
+				2 => rcgen::Error::RingKeyRejected("token removed".into()),
+				3 => rcgen::Error::Time,
+				4 => rcgen::Error::CouldNotParseKeyPair,
+				5 => rcgen::Error::KeyGenerationUnavailable,
+				_ => rcgen::Error::UnsupportedSignatureAlgorithm,
+			});
 		}
 		openssl_sign(&self.fx.pkey, self.digest, msg).map_err(|_| rcgen::Error::RemoteKeyError)
 	}
